@@ -358,3 +358,50 @@ func VerifC17_UploadLengthCorrupted() {
 	verif.Bound("C17 upload length", "as upload; the announced length replaced by any other value 1..23")
 	vUpload(3)
 }
+
+// (b) chunk production for every MTU: whatever budget the producer offers, a data
+// chunk fits it, the offset advances exactly by the bytes emitted, and chunks are
+// contiguous.
+func VerifC17_SendDataEveryMTU() {
+	verif.NoPanic()
+	verif.Expect("chunk")
+	verif.Bound("C17b", "owner DownloadContents after its announcement; file of 600 bytes (symbolic first/last byte of each chunk position is not needed: content opaque zeros with 4 symbolic marker bytes); chunk size in {1,23,24,255,256,1014,default,max}; producer MTU = any uint16 (length classes per branch); two consecutive rounds")
+	content := make([]byte, 600)
+	for _, i := range []int{0, 255, 256, 599} {
+		content[i] = verif.U8("marker")
+	}
+	cs := []int{1, 23, 24, 255, 256, 1014, 0, -1}[verif.Choose("chunksize", 8)]
+	d := &DownloadContents[*bytes.Reader]{Name: "f", Contents: bytes.NewReader(content), ChunkSize: cs}
+	// announcement with a roomy MTU
+	p0 := serviceinfo.NewProducer("fdo.download", 1300)
+	_, _, err := d.ProduceInfo(context.Background(), p0)
+	verif.Assert(err == nil, "announcement")
+	mtu := verif.U16("mtu")
+	verif.Assume(mtu >= 3)
+	var emitted int64
+	for round := 0; round < 2; round++ {
+		p := serviceinfo.NewProducer("fdo.download", mtu)
+		before := d.index
+		_, _, err := d.ProduceInfo(context.Background(), p)
+		if err != nil {
+			verif.Assert(d.index == before, "a round that fails emits nothing and does not advance")
+			verif.Reached("too small")
+			return
+		}
+		kvs := p.ServiceInfo()
+		verif.Assert(serviceinfo.ArraySizeCBOR(kvs) <= int64(mtu), "the data chunk fits the MTU the producer was created with")
+		n := int64(0)
+		for _, kv := range kvs {
+			var chunk []byte
+			verif.Assert(cbor.Unmarshal(kv.Val, &chunk) == nil, "a data value is one byte string")
+			verif.Assert(verif.BytesEq(chunk, content[before+n:before+n+int64(len(chunk))]), "chunks are contiguous pieces of the file")
+			n += int64(len(chunk))
+		}
+		verif.Assert(d.index == before+n, "the offset advances exactly by the bytes emitted")
+		emitted += n
+		if n > 0 {
+			verif.Reached("chunk")
+		}
+	}
+	verif.Reached("end")
+}
